@@ -41,7 +41,10 @@ type witness struct {
 	Extra    interface{} `json:"extra,omitempty"`
 }
 
-func scenarioFor(c *verdict.Ctx, idx int) *Scenario {
+func scenarioFor(c *verdict.Ctx, strm string, idx int) *Scenario {
+	if strm == "verify" {
+		return genVerifyScenario(c.Seed, c.SubSeed(strm, idx), idx)
+	}
 	return genScenario(c.Rand(stream, idx), c.Seed, c.SubSeed(stream, idx), stream, idx)
 }
 
@@ -50,7 +53,7 @@ func Run(c *verdict.Ctx) int {
 	switch os.Getenv(envStage) {
 	case "scenario":
 		idx, _ := strconv.Atoi(os.Getenv(envCase))
-		runChild(scenarioFor(c, idx), os.Getenv(envOut))
+		runChild(scenarioFor(c, os.Getenv(envStream), idx), os.Getenv(envOut))
 		return 0
 	}
 
@@ -80,7 +83,7 @@ func Run(c *verdict.Ctx) int {
 		if w.Stream == "tierb" {
 			runTierBCase(c, dir, w.Case)
 		} else {
-			runCase(c, dir, w.Case, true)
+			runCase(c, dir, w.Stream, w.Case, true)
 		}
 		return c.Finish(0)
 	}
@@ -100,7 +103,7 @@ func Run(c *verdict.Ctx) int {
 		go func() {
 			defer wg.Done()
 			for idx := range jobs {
-				runCase(c, dir, idx, false)
+				runCase(c, dir, stream, idx, false)
 			}
 		}()
 	}
@@ -108,6 +111,27 @@ func Run(c *verdict.Ctx) int {
 		jobs <- idx
 	}
 	close(jobs)
+	wg.Wait()
+
+	// verify family: one one-chunk restore per (verified version, reported version, hash, height) combination
+	nv := c.N(112, len(verifyCombos()))
+	if v, err := strconv.Atoi(os.Getenv("VERIF_C14_NV")); err == nil && v >= 0 {
+		nv = v
+	}
+	vjobs := make(chan int)
+	for k := 0; k < par; k++ {
+		wg.Add(1)
+		go func() {
+			defer wg.Done()
+			for idx := range vjobs {
+				runCase(c, dir, "verify", idx, false)
+			}
+		}()
+	}
+	for idx := 0; idx < nv; idx++ {
+		vjobs <- idx
+	}
+	close(vjobs)
 	wg.Wait()
 
 	if c.Thorough() {
@@ -146,19 +170,19 @@ func Run(c *verdict.Ctx) int {
 }
 
 // spawn runs one child stage; returns header, events, stderr tail, exit code.
-func spawn(c *verdict.Ctx, dir, stage string, idx int, timeout time.Duration) (string, string, int) {
+func spawn(c *verdict.Ctx, dir, stage, strm string, idx int, timeout time.Duration) (string, string, int) {
 	bin := os.Getenv("VERIF_SELF")
 	if bin == "" {
 		bin, _ = os.Executable()
 	}
-	tag := fmt.Sprintf("%s-%d", stage, idx)
+	tag := fmt.Sprintf("%s-%s-%d", stage, strm, idx)
 	sub := filepath.Join(dir, tag)
 	_ = os.MkdirAll(sub, 0o755)
 	out := filepath.Join(sub, "out.jsonl")
 	errPath := filepath.Join(sub, "stderr")
 	ef, _ := os.Create(errPath)
 	cmd := exec.Command(bin, "--tier", c.Tier, c.ID)
-	cmd.Env = append(os.Environ(), envStage+"="+stage, envCase+"="+strconv.Itoa(idx), envOut+"="+out,
+	cmd.Env = append(os.Environ(), envStage+"="+stage, envStream+"="+strm, envCase+"="+strconv.Itoa(idx), envOut+"="+out,
 		"TMPDIR="+sub, "VERIF_SEED="+strconv.FormatInt(c.Seed, 10))
 	cmd.Stdout = ef
 	cmd.Stderr = ef
@@ -233,14 +257,14 @@ func readLog(path string) (*Header, []Ev, error) {
 	return h, evs, nil
 }
 
-func runCase(c *verdict.Ctx, dir string, idx int, verbose bool) {
+func runCase(c *verdict.Ctx, dir, strm string, idx int, verbose bool) {
 	var h *Header
 	var evs []Ev
 	var tail string
 	var code int
 	for try := 0; try < 2; try++ {
 		var out string
-		out, tail, code = spawn(c, dir, "scenario", idx, 90*time.Second)
+		out, tail, code = spawn(c, dir, "scenario", strm, idx, 90*time.Second)
 		var err error
 		h, evs, err = readLog(out)
 		_ = os.RemoveAll(filepath.Dir(out))
@@ -295,10 +319,10 @@ func runCase(c *verdict.Ctx, dir string, idx int, verbose bool) {
 	}
 	c.Count("discovery "+h.Scenario.Discovery, 1)
 	if j.nontrivial {
-		c.Distinct("A", j.sig)
+		c.Distinct("A", strm, j.sig)
 	}
 	for _, f := range j.findings {
-		w := witness{Stream: stream, Case: idx, Scenario: h.Scenario, PeerIDs: h.PeerIDs, Finding: f, Outcome: j.outcome, Log: trimLog(evs, f.At),
+		w := witness{Stream: strm, Case: idx, Scenario: h.Scenario, PeerIDs: h.PeerIDs, Finding: f, Outcome: j.outcome, Log: trimLog(evs, f.At),
 			Note: "replay: VERIF_SEED=<seed> ./run C14 --replay <this file> re-runs this scenario (arrival order inside the node is re-drawn by the scheduler seed; goroutine timing is not reproduced exactly)"}
 		c.Violation(f.Key, f.What, w)
 		if verbose {
